@@ -363,4 +363,58 @@ PROPERTIES = {
                        "labelled-first.",
         "trusted": COMMON_TRUST[:3] + ["np.savetxt/np.loadtxt exact text round trip (assumed, exercised by the bounded channel)"],
     },
+    "C18": {
+        "functions": ["opfython.stream.splitter.split", "opfython.stream.splitter.split_with_index",
+                      "opfython.stream.splitter.merge"],
+        "lemmas": [],
+        "files": ["opfython/stream/splitter.py", "opfython/stream/loader.py", "opfython/stream/parser.py",
+                  "opfython/utils/converter.py", "opfython/core/subgraph.py"],
+        "bounded": "bounded.c18",
+        "level": "other",
+        "explanation": "PROVED (all sizes, percentages in [0, 1], seeds): split / split_with_index return floor(n * percentage) "
+                       "rows first and the rest second; output row r of the first set is input row perm[r] with its own label "
+                       "(and index), of the second input row perm[h + r], where perm = np.random.permutation(n) right after "
+                       "np.random.seed(seed) - a bijection of 0..n-1 that depends on (seed, n) only (assumed numpy contract), "
+                       "hence a partition and a deterministic function of the seed; split and split_with_index agree; merge "
+                       "is the concatenation in matching order (assumed vstack / hstack contract), so merging the two sets "
+                       "gives back every sample once. BOUNDED (file formats are external contracts: struct, np.savetxt / "
+                       "np.loadtxt, json): OPF binary -> .txt / .csv / .json -> load -> parse yields identical identifiers, "
+                       "exact float32 features and labels - 1 in the three formats, including one-sample files; parse_loader "
+                       "rejects non-sequential label sets.",
+        "trusted": COMMON_TRUST[:3] + ["assumed numpy contracts: random.seed + random.permutation, fancy indexing with an index "
+                                       "array (copy of the selected rows), basic slices, vstack / hstack",
+                                       "int(len(X) * percentage) is the floor of the exact product (real arithmetic; a double "
+                                       "product could differ by one ulp at exact multiples - outside the model)"],
+    },
+    "C19": {
+        "functions": ["static:pickle_frame", "effects:C07"],
+        "lemmas": [],
+        "files": ["opfython/core/opf.py", "opfython/core/node.py", "opfython/core/subgraph.py", "opfython/subgraphs/knn.py"],
+        "bounded": "bounded.c19",
+        "level": "exploration",
+        "explanation": "pickle's behaviour on numpy arrays and numba dispatchers is an external library contract, so the deciding "
+                       "check is the bounded run-time contract (rule below). Statically discharged: save only pickles self, load "
+                       "adopts every attribute of the unpickled object, no class customises pickling; save does not mutate self.",
+        "trusted": ["pickle round-trips numpy arrays, Python scalars and numba-compiled functions (assumed; exercised)"],
+    },
+    "C11": {
+        "functions": ["static:order_only", "static:monotone_family"] + ["metric:" + k for k in (
+            "euclidean", "squared_euclidean", "average_euclidean", "log_euclidean", "log_squared_euclidean")],
+        "lemmas": [],
+        "files": ["opfython/models/supervised.py", "opfython/core/heap.py", "opfython/math/distance.py",
+                  "opfython/utils/constants.py"],
+        "bounded": "bounded.c11",
+        "level": "other",
+        "explanation": "MONOTONE RESCALING - discharged as finite obligations plus a pencil meta-argument: (1) in the heap, "
+                       "_find_prototypes, fit and predict, costs and arc weights are used ONLY through comparisons, np.maximum / "
+                       "np.minimum, copies and the sentinels 0 and FLOAT_MAX (order-only discipline, one AST obligation per "
+                       "function; any arithmetic on a cost fails it); (2) the five Euclidean-family closed forms (proved equal "
+                       "to the code in C06) are strictly increasing functions of the sum of squared differences vanishing at 0 "
+                       "(z3, log assumed strictly increasing with log 1 = 0). A program with discipline (1) computes the same "
+                       "predecessors, prototypes, labels, order and predictions for W and phi(W) (coupling preserved statement "
+                       "by statement). PERMUTATION of the training samples - NOT decided deductively (needs MST uniqueness and "
+                       "the zero-resubstitution theorem, both cited): BOUNDED relational run-time contract on tie-free data "
+                       "(seeded permutations; all n! for n <= 5 in the thorough tier), together with the rescaling half.",
+        "trusted": ["see C06 for the closed forms; log strictly increasing (assumed)"],
+    },
 }
